@@ -79,6 +79,8 @@ def ir_specs(special=None, lens=None, dense=None, toggle=None):
                 spec["lonely_min"] = True
             if seed % 5 == 0:
                 spec["auto_temps"] = [max(10, lo - 3), min(60, hi + 4)]
+            if seed % 3 == 1:
+                spec["d1_only_prefixed"] = True
         return spec
     return st.tuples(
         st.booleans(), st.integers(0, 9), st.booleans(), st.integers(1, 31),
